@@ -10,8 +10,9 @@ Extracted (and tied by `reflexivity` to the configurations the theorems of Props
                                       cache_scope overrides for cache=False / prov=False
   gen_handback    : handback_cfg   -- endings of Scheduler.run / extend_run, the dict of _subrun_root_task, `then`
   gen_wiring      : wiring         -- where execution id / parent job of the sub-scheduler's jobs come from
+  gen_ctx_order   : ctx_order      -- Scheduler.run: merge_dicts([config-level context, context given to run()])
 Pinned by shape (translate/pins_C38.json): small helpers the model takes as given (Job.get_raw_options /
-get_options / get_option / recording_provenance, Execution.__init__, JobInfo.from_job, RedunBackendDb.get_job).
+get_options / get_option / recording_provenance / get_context, Execution.__init__, JobInfo.from_job, RedunBackendDb.get_job).
 """
 from __future__ import annotations
 
@@ -506,14 +507,28 @@ def extract_run(mod):
             fail(f"Scheduler.run: unrecognised ending {t!r}", stmts[0])
         ends.append(f"({st}, {end})")
     new_exec = None
+    order = None
     for n in ast.walk(fn):
         if isinstance(n, ast.Assign) and src(n.targets[0]) == "self._current_execution":
             v = n.value
             if isinstance(v, ast.Call) and src(v.func) == "Execution" and v.args and src(v.args[0]) == "execution_id":
                 new_exec = "WExecFresh"
+                kw = {k.arg: k.value for k in v.keywords}
+                c = kw.get("context")
+                # the execution context: config-level context first, the context given to run() second (later wins)
+                if not (len(v.args) == 1 and set(kw) == {"context"} and isinstance(c, ast.Call) and src(c.func) == "merge_dicts"
+                        and len(c.args) == 1 and isinstance(c.args[0], ast.List) and not c.keywords):
+                    fail("Scheduler.run: the execution context is not merge_dicts([..., ...])", n)
+                ops = [src(e) for e in c.args[0].elts]
+                order = {("self._context", "context"): "ConfigThenRun", ("context", "self._context"): "RunThenConfig"}.get(tuple(ops))
+                if order is None:
+                    fail(f"Scheduler.run: unrecognised operands of the execution context merge: {ops}", n)
     if new_exec is None:
         fail("Scheduler.run: self._current_execution is not Execution(execution_id, ...)", fn)
-    return ends, new_exec
+    for n in ast.walk(fn):
+        if isinstance(n, ast.Name) and n.id == "context" and isinstance(n.ctx, ast.Store):
+            fail("Scheduler.run: the context argument is reassigned", n)
+    return ends, new_exec, order
 
 
 SRC_OF = {"result.value": "SrcValue", "result.error": "SrcError", "True": "SrcTrue", "job.id": "SrcMeta",
@@ -639,7 +654,7 @@ def extract_rows(source=None):
 def pins_now(smod, dmod):
     p = {}
     job = find_class(smod, "Job")
-    for name in ("get_raw_options", "get_options", "get_option", "recording_provenance"):
+    for name in ("get_raw_options", "get_options", "get_option", "recording_provenance", "get_context"):
         p[f"sched.Job.{name}"] = pin(next(n for n in job.body if isinstance(n, ast.FunctionDef) and n.name == name))
     p["sched.Execution.__init__"] = pin(find_func(smod, "__init__", "Execution"))
     p["sched.JobInfo.from_job"] = pin(find_func(smod, "from_job", "JobInfo"))
@@ -663,7 +678,7 @@ def translate(pins: dict | None = None, sched_source=None, db_source=None):
     gc = extract_getcache(cc_params, sched_source)
     sr = extract_subrun(smod)
     ea = extract_evaluate_apply(smod)
-    ends, new_exec = extract_run(smod)
+    ends, new_exec, ctx_order = extract_run(smod)
     ext, w = extract_extend_run(smod)
     rt = extract_root_task(smod)
     row_parent, row_exec, dmod = extract_rows(db_source)
@@ -694,14 +709,17 @@ def translate(pins: dict | None = None, sched_source=None, db_source=None):
          "Definition gen_wiring : wiring :=\n  mkW %s %s %s %s %s %s %s %s." % (
              w["exec"], w["parent"], b(rt["parent_is_jobinfo"]), new_exec, row_parent, row_exec, ea["job_exec"], ea["job_parent"]),
          "",
+         "Definition gen_ctx_order : ctx_order := %s." % ctx_order,
+         "",
          "(* the theorems of Props/C38.v are about the shipped_* configurations: they must be what the source says now *)",
+         "Lemma C38_tie_ctx_order : gen_ctx_order = shipped_ctx_order.\nProof. reflexivity. Qed.",
          "Lemma C38_tie_check_cache : gen_check_cache = shipped_check_cache.\nProof. reflexivity. Qed.",
          "Lemma C38_tie_getcache : gen_getcache = shipped_getcache.\nProof. reflexivity. Qed.",
          "Lemma C38_tie_subrun_opts : gen_subrun_opts = shipped_subrun_opts.\nProof. reflexivity. Qed.",
          "Lemma C38_tie_handback : gen_handback = shipped_handback.\nProof. reflexivity. Qed.",
          "Lemma C38_tie_wiring : gen_wiring = shipped_wiring.\nProof. reflexivity. Qed.",
          ]
-    info = {"check_cache": cc, "getcache": gc, "subrun": sr, "evaluate_apply": ea, "run": ends, "extend_run": ext,
+    info = {"ctx_order": ctx_order, "check_cache": cc, "getcache": gc, "subrun": sr, "evaluate_apply": ea, "run": ends, "extend_run": ext,
             "wiring": w, "root_task": rt}
     return "\n".join(v) + "\n", info, got
 
